@@ -29,14 +29,14 @@ func (s *scen) roots() map[string][]chainsim.Action {
 	f := append(s.rootBase(), s.addAssigner("scowner", 0, 4, 7, 0), s.addAssigner("scowner", 1, 3.5, 3.5, 0))
 	awc := append(s.rootAW(), s.genChallenge(0))
 	awk := append(s.rootAW(), s.kill("scowner", "b0"))
-	return map[string][]chainsim.Action{"base": s.rootBase(), "A": s.rootA(), "AW": s.rootAW(), "AWC": awc, "AWK": awk, "AB": ab, "F": f}
+	return map[string][]chainsim.Action{"TD": s.rootTD(), "base": s.rootBase(), "A": s.rootA(), "AW": s.rootAW(), "AWC": awc, "AWK": awk, "AB": ab, "F": f}
 }
 
 // fullAlphabet is the union of every action used by some check (the probe command picks from it).
 func (s *scen) fullAlphabet() []chainsim.Action {
 	var out []chainsim.Action
 	seen := map[string]bool{}
-	for _, l := range [][]chainsim.Action{s.lifeAlphabet(2), s.closeAlphabet(true), s.readAlphabet(true), s.freeAlphabet(true), s.capAlphabet(true), s.lateFailing()} {
+	for _, l := range [][]chainsim.Action{s.dryAlphabet(true), s.lifeAlphabet(2), s.closeAlphabet(true), s.readAlphabet(true), s.freeAlphabet(true), s.capAlphabet(true), s.lateFailing()} {
 		for _, a := range l {
 			if !seen[a.Name] {
 				seen[a.Name] = true
@@ -83,6 +83,34 @@ func (s *scen) lifeAlphabet(level int) []chainsim.Action {
 			s.finalize("A", "c0", late, 0),
 			s.collect("c2", spenum.Blobber, "b1"),
 			s.unstake("c2", spenum.Blobber, "b3", 0),
+		)
+	}
+	return a
+}
+
+// dryAlphabet: allocation T whose write pool is (nearly) empty: clamped uploads, clamped deletes,
+// challenges paid from a challenge pool that holds less than the full price, extension with and
+// without fresh tokens, close.
+func (s *scen) dryAlphabet(wide bool) []chainsim.Action {
+	a := []chainsim.Action{
+		s.commit("T", 1, 1, "", 0),
+		s.commit("T", 2, 1, "", 0),
+		s.commit("T", 1, -1, "", 0),
+		s.genChallenge(0),
+		s.challengeResponse("T", 0, "pass", 0, 0),
+		s.challengeResponse("T", 0, "fail", 0, 0),
+		s.update("T", "c0", 0, true, -1, -1, 0, 0, 0),
+		s.update("T", "c0", 0, true, -1, -1, 2*tinyCost, 0, 0),
+		s.writePoolLock("T", "c0", ZCN/10, 0),
+		s.cancel("T", "c0", 0, 0),
+		s.finalize("T", "b1", late, 0),
+	}
+	if wide {
+		a = append(a,
+			s.commit("T", 3, -1, "", 0),
+			s.update("T", "c0", 2*chunk, false, -1, -1, tinyCost, 0, 0),
+			s.tick("b0", 3),
+			s.kill("scowner", "b1"),
 		)
 	}
 	return a
@@ -300,6 +328,11 @@ func withLegend(mons []chainsim.Monitor, legend string) []chainsim.Monitor {
 func c12(run *ev.Run, variant string) {
 	s := newScen(0.1)
 	r := s.roots()
+	if variant == "dry" {
+		run.Rule = "BFS over all sequences up to the depth bound on allocation T (128 KiB, funded at exactly its price, write pool nearly emptied by three 1-byte markers charged as full chunks): further 1-byte uploads (clamped by the write pool), 1-byte deletes (clamped by the blobber value), challenge generation and responses, extension with and without tokens, write-pool lock, cancel, finalize; after every transition, for EVERY allocation node: challenge pool balance == sum of ChallengePoolIntegralValue"
+		s.explore(run, s.dryAlphabet(run.Thorough()), pick(run, r, "TD"), 3, 4, s.cpMonitor)
+		return
+	}
 	run.Rule = "BFS over all sequences up to the depth bound of write markers (+/-), challenge generation and responses (pass/fail/partial/late), extend, resize, add/replace blobber (alive and killed), settings change, kill, cancel, finalize on allocation A from root states {A fresh, A with data, A with data and an open challenge}; after every transition, for EVERY allocation node: challenge pool balance == sum of ChallengePoolIntegralValue, and no challenge pool without its allocation"
 	s.explore(run, s.lifeAlphabet(run.Pick(0, 1)), pick(run, r, "AW", "AWC", "A"), 3, 4, s.cpMonitor)
 }
@@ -353,6 +386,8 @@ func c09(run *ev.Run, variant string) {
 		}
 		acts = append(acts, s.collect("c2", spenum.Blobber, "b1"), s.unstake("c2", spenum.Blobber, "b3", 0))
 		s.explore(run, acts, pick(run, r, "AW", "AWC", "AWK"), 2, 3, s.liabMonitor)
+	case "dry":
+		s.explore(run, s.dryAlphabet(run.Thorough()), pick(run, r, "TD"), 3, 4, s.liabMonitor)
 	case "read":
 		s.explore(run, s.readAlphabet(run.Thorough()), pick(run, r, "AB"), 3, 4, s.liabMonitor)
 	case "free":
